@@ -566,7 +566,7 @@ func runCoord(a Args) *Result {
 			res.Mismatch = append(res.Mismatch, Violation{Property: "*", Clause: "bad-op", Signature: "bad-op", What: ans, Case: it.c, Line: lines[i]})
 			continue
 		}
-		top := fieldsAfter(ans, "case", "impl", "model", "tags")
+		matched := fieldsAfter(ans, "matched", "impl", "model", "tags")
 		impl := fieldsAfter(ans, "impl", "model", "tags")
 		model := fieldsAfter(ans, "model", "tags")
 		tags := ""
@@ -586,9 +586,11 @@ func runCoord(a Args) *Result {
 		if i < 3 {
 			res.addSample(full)
 		}
-		if top["match"] != "1" {
-			res.Mismatch = capViol(res.Mismatch, Violation{Property: "*", Clause: "correspondence", Signature: "coord/nomatch",
-				What: "no schedule makes Coord.cycle produce the observed outcome (" + ans + ")", Case: full, Line: lines[i]}, 5)
+		for p, v := range matched {
+			if v != "1" && a.wants(p) {
+				res.Mismatch = capViol(res.Mismatch, Violation{Property: p, Clause: "correspondence", Signature: "coord/nomatch/" + p,
+					What: "no schedule makes Coord.cycle agree with the real coordinator on the observables of " + p, Case: full, Line: lines[i]}, 3)
+			}
 		}
 		for p, v := range impl {
 			if v != "ok" && a.wants(p) {
